@@ -8,7 +8,7 @@ def run(tier, seed):
         mc_actions=("DownFulfil", "DownFail", "UpPreimageComplete", "DownRaaSubmit", "DownRaaComplete", "UpClaim", "UpFail", "Crash"),
         profiles=[("default", 3, 120), ("async", 3, 150), ("crash", 3, 100)],
         thorough_profiles=[("default", 3, 2000), ("async", 3, 3000), ("crash", 3, 2000)],
-        families=[("failwin", 250), ("fanin", 250), ("chainsettle", 80)], thorough_families=[("failwin", 4000), ("fanin", 4000), ("chainsettle", 1500)],
+        families=[("failwin", 250), ("fanin", 250), ("chainsettle", 80)], thorough_families=[("failwin", 4000), ("fanin", 4000), ("chainsettle", 500)],
         assumptions=cc.COMMON_ASSUMPTIONS + [
             "both links stay off-chain (on-chain resolution of a forwarded HTLC is covered by the on-chain checks "
             "C06-C08); when a channel of the forwarding node was closed after a stale-manager restart the "
